@@ -7,7 +7,9 @@ import "context"
 // Hooks for the verification harness (build tag verif): thin wrappers, no logic of their own.
 
 // VerifDetectOnce runs one pass of the periodic reorg check (what the ticker of Start calls).
-func (rd *ReorgDetector) VerifDetectOnce(ctx context.Context) error { return rd.detectReorgInTrackedList(ctx) }
+func (rd *ReorgDetector) VerifDetectOnce(ctx context.Context) error {
+	return rd.detectReorgInTrackedList(ctx)
+}
 
 // VerifTracked returns the in-memory tracked headers of a subscriber (block number -> hash), for observation.
 func (rd *ReorgDetector) VerifTracked(id string) map[uint64][32]byte {
